@@ -1462,6 +1462,11 @@ namespace cds { namespace container {
                     return update_flags::failed;
                 }
 
+                if ( !pNode->is_valued( memory_model::memory_order_relaxed ) && !(nFlags & update_flags::allow_insert)) {
+                    // the node is a routing node (its value has been removed): the key is absent and insertion is not allowed
+                    return update_flags::failed;
+                }
+
                 pOld = pNode->value( memory_model::memory_order_relaxed );
                 bInserted = pOld == nullptr;
                 mapped_type pVal = funcUpdate( pNode );
